@@ -272,8 +272,37 @@ class Interp:
                 return True
         return False
 
+    def solve_reachers(self):
+        """names of package functions / methods that (transitively) call something named solve"""
+        if not hasattr(self, '_solve_reachers'):
+            calls = {}
+            for tree in self.repo.trees.values():
+                for fn in [x for x in ast.walk(tree) if isinstance(x, ast.FunctionDef)]:
+                    cs = calls.setdefault(fn.name, set())
+                    for x in ast.walk(fn):
+                        if isinstance(x, ast.Call):
+                            nm = x.func.attr if isinstance(x.func, ast.Attribute) else (x.func.id if isinstance(x.func, ast.Name) else None)
+                            if nm:
+                                cs.add(nm)
+            reach = {'solve'}
+            changed = True
+            while changed:
+                changed = False
+                for fn, cs in calls.items():
+                    if fn not in reach and cs & reach:
+                        reach.add(fn)
+                        changed = True
+            self._solve_reachers = reach
+        return self._solve_reachers
+
     def init_generator(self, func, fr):
         if self.is_generator(func):
+            reach = self.solve_reachers()
+            for x in ast.walk(func.node):
+                if isinstance(x, ast.Call) and ((isinstance(x.func, ast.Attribute) and x.func.attr in reach) or (isinstance(x.func, ast.Name) and x.func.id in reach)):
+                    # the body of a generator runs when (and as far as) its consumer asks: the order of its solves relative to the
+                    # consumer's tests is not the textual one the effect tree would record
+                    raise Unknown('the generator function %s performs solves lazily' % func.qualname)
             fr.env['__yield__'] = ('list', ())
             fr.defdepth['__yield__'] = 0
             fr.is_gen = True
@@ -444,7 +473,8 @@ class Interp:
                     return C(sv)
             except Exception:
                 pass
-        if len(found) == 1 and (lit_call or isinstance(found[0], (ast.Tuple, ast.List, ast.Dict, ast.Constant, ast.Attribute, ast.Set))):
+        is_partial = len(found) == 1 and isinstance(found[0], ast.Call) and ast.unparse(found[0].func) in ('partial', 'functools.partial')
+        if len(found) == 1 and (lit_call or is_partial or isinstance(found[0], (ast.Tuple, ast.List, ast.Dict, ast.Constant, ast.Attribute, ast.Set))):
             try:
                 self.modconst[name] = None
                 val = self.ex(found[0], Frame(fr.func, {}))
@@ -530,6 +560,28 @@ class Interp:
                         out.add(n.target.attr)
                     elif isinstance(n, ast.AugAssign) and isinstance(n.target, ast.Subscript) and isinstance(n.target.value, ast.Attribute):
                         out.add(n.target.value.attr)
+                # ... or through a local alias:  lst = model.attr; lst.append(x)  (also when handed to a callee: any name bound to the
+                # attribute's value that is later mutated, passed as an argument or returned counts)
+                for fn in [x for x in ast.walk(tree) if isinstance(x, ast.FunctionDef)]:
+                    alias = {}
+                    for n in ast.walk(fn):
+                        if isinstance(n, ast.Assign) and isinstance(n.value, ast.Attribute):
+                            for t in n.targets:
+                                if isinstance(t, ast.Name):
+                                    alias.setdefault(t.id, set()).add(n.value.attr)
+                    if not alias:
+                        continue
+                    for n in ast.walk(fn):
+                        if isinstance(n, ast.Call) and isinstance(n.func, ast.Attribute) and n.func.attr in MUTATING_METHODS and isinstance(n.func.value, ast.Name) and n.func.value.id in alias:
+                            out |= alias[n.func.value.id]
+                        elif isinstance(n, ast.Subscript) and isinstance(n.ctx, (ast.Store, ast.Del)) and isinstance(n.value, ast.Name) and n.value.id in alias:
+                            out |= alias[n.value.id]
+                        elif isinstance(n, ast.AugAssign) and isinstance(n.target, ast.Name) and n.target.id in alias:
+                            out |= alias[n.target.id]
+                        elif isinstance(n, ast.Call):
+                            for a in list(n.args) + [k.value for k in n.keywords]:
+                                if isinstance(a, ast.Name) and a.id in alias:
+                                    out |= alias[a.id]              # handed on: the callee may fill it
             self._mutated_attrs = out
         return name in self._mutated_attrs
 
@@ -887,6 +939,29 @@ class Interp:
             else:
                 args.append(self.ex(a, fr))
         kw = [(k.arg, self.ex(k.value, fr)) for k in n.keywords]
+        # super().method(...): the method of the first package base class that defines it, on the same object
+        if isinstance(f, ast.Attribute) and isinstance(f.value, ast.Call) and isinstance(f.value.func, ast.Name) and f.value.func.id == 'super' and not f.value.args \
+                and 'self' in fr.env and fr.func.cls:
+            own = fr.func.cls
+            seen_, todo_ = set(), list(getattr(self.repo, 'class_bases', {}).get(own, []))
+            target = None
+            while todo_ and target is None:
+                b_ = todo_.pop(0)
+                if b_ in seen_:
+                    continue
+                seen_.add(b_)
+                for rel_, tree_ in self.repo.trees.items():
+                    for c_ in tree_.body:
+                        if isinstance(c_, ast.ClassDef) and c_.name == b_:
+                            own_methods = {m_.name for m_ in c_.body if isinstance(m_, ast.FunctionDef)}
+                            if f.attr in own_methods and f.attr in self.repo.classes.get(b_, {}):
+                                target = self.repo.classes[b_][f.attr]
+                todo_ += getattr(self.repo, 'class_bases', {}).get(b_, [])
+            if target is not None:
+                return self.inline(target, fr.env['self'], args, kw, fr, n)
+            if f.attr == '__init__':
+                return NONE                    # object.__init__ / a library base: nothing the analysis tracks
+            raise Unknown('super().%s is not defined by a class of the package' % f.attr)
         # method on an object
         if isinstance(f, ast.Attribute):
             recv = self.ex(f.value, fr)
@@ -896,15 +971,59 @@ class Interp:
                 self.emit(Eff('solve', fr.func, n, recv=recv, args=tuple(args)))
                 return CALL(A(recv, meth), args, kw)
             if meth == 'format' and recv[0] == 'const' and isinstance(recv[1], str):
-                return self.format_template(recv[1], args)
+                return self.format_template(recv[1], args, kw)
             if meth == 'format' and not kw and recv[0] in ('bin', 'fstr', 'ite') and self.is_template(recv):
                 return self.format_term(recv, list(args))
             target = self.resolve_method(recv, meth, len(args) + len(kw), fr)
             if target is not None:
                 return self.inline(target, recv, args, kw, fr, n)
             return CALL(A(recv, meth), args, kw)
-        if isinstance(f, (ast.Name, ast.Subscript, ast.Call)) and not (isinstance(f, ast.Name) and f.id not in fr.env):
-            fv = self.ex(f, fr)
+        # functools.partial(callee, *a, **k): a callable value that remembers its first arguments
+        if ((isinstance(f, ast.Name) and f.id == 'partial' and 'partial' not in fr.env) or (isinstance(f, ast.Attribute) and f.attr == 'partial' and isinstance(f.value, ast.Name)
+                                                                                              and f.value.id == 'functools')) and n.args and not any(isinstance(a, ast.Starred) for a in n.args):
+            pid = next(self.ids)
+            if not hasattr(self, 'partials'):
+                self.partials = {}
+            self.partials[pid] = (n.args[0], tuple(args[1:]), tuple(kw), fr)
+            return ('partial', pid)
+        mod_partial = None
+        if isinstance(f, ast.Name) and f.id not in fr.env and f.id not in self.repo.funcs_by_name and f.id not in self.repo.classes:
+            mc_ = self.module_constant(f.id, fr)
+            if mc_ is not None and mc_[0] == 'partial':
+                mod_partial = mc_                   # NAME = partial(...) at module level
+        if mod_partial is not None or (isinstance(f, (ast.Name, ast.Subscript, ast.Call)) and not (isinstance(f, ast.Name) and f.id not in fr.env)):
+            fv = mod_partial if mod_partial is not None else self.ex(f, fr)
+            if fv[0] == 'partial' and fv[1] in getattr(self, 'partials', {}):
+                callee_ast, pargs, pkw, pfr = self.partials[fv[1]]
+                # call the remembered callee with the remembered arguments first, then these (later keywords win)
+                names = {}
+                new_args, new_kws = [], []
+                for i_, a_ in enumerate(pargs):
+                    nm_ = '__partial_%d_a%d' % (fv[1], i_)
+                    names[nm_] = a_
+                    new_args.append(ast.Name(id=nm_, ctx=ast.Load()))
+                given = {k_.arg for k_ in n.keywords}
+                for k_, v_ in pkw:
+                    if k_ in given:
+                        continue
+                    nm_ = '__partial_%d_k%s' % (fv[1], k_)
+                    names[nm_] = v_
+                    new_kws.append(ast.keyword(arg=k_, value=ast.Name(id=nm_, ctx=ast.Load())))
+                call2 = ast.Call(func=callee_ast, args=new_args + list(n.args), keywords=new_kws + list(n.keywords))
+                ast.copy_location(call2, n)
+                ast.fix_missing_locations(call2)
+                saved = {k_: fr.env.get(k_) for k_ in names}
+                fr.env.update(names)
+                try:
+                    # (the callee expression is evaluated in the calling frame: partial(LpVariable, ...), partial(self.helper, ...),
+                    # partial('template'.format, ...) name things that mean the same there)
+                    return self._call(call2, fr)
+                finally:
+                    for k_, v_ in saved.items():
+                        if v_ is None:
+                            fr.env.pop(k_, None)
+                        else:
+                            fr.env[k_] = v_
             if fv[0] == 'closure':
                 cf, cfr = self.closures[fv[1]]
                 return self.inline(cf, None, args, kw, fr, n, base_env=cfr.env, cls=cfr.cls)
@@ -1021,7 +1140,36 @@ class Interp:
             return x
         return go(t)
 
-    def format_template(self, s, args):
+    def format_template(self, s, args, kw=()):
+        import re as _re
+        if _re.search(r'\{[A-Za-z_0-9]+\}', s):
+            # named / numbered fields without format specs: '{kind}_({s},{p})'.format(kind=..., s=..., p=...)
+            kwd = dict(kw)
+            parts, pos, auto = [], 0, 0
+            for m_ in _re.finditer(r'\{([A-Za-z_0-9]*)\}', s):
+                if m_.start() > pos:
+                    lit = s[pos:m_.start()]
+                    if '{' in lit or '}' in lit:
+                        raise Unknown('format spec ' + s)
+                    parts.append(C(lit))
+                key = m_.group(1)
+                if key == '':
+                    val = args[auto] if auto < len(args) else None
+                    auto += 1
+                elif key.isdigit():
+                    val = args[int(key)] if int(key) < len(args) else None
+                else:
+                    val = kwd.get(key)
+                if val is None:
+                    raise Unknown('format field {%s} has no argument' % key)
+                parts.append(val)
+                pos = m_.end()
+            tail = s[pos:]
+            if '{' in tail or '}' in tail:
+                raise Unknown('format spec ' + s)
+            if tail:
+                parts.append(C(tail))
+            return ('fstr', tuple(parts))
         parts, i = [], 0
         for k, chunk in enumerate(s.split('{}')):
             if k > 0:
@@ -1298,6 +1446,11 @@ class Interp:
                 for x in ast.walk(v.func.value):
                     if isinstance(x, ast.Name) and x.id in fr.env and fr.env[x.id][0] in ('list', 'dict', 'comp', 'cat', 'accum', 'upd'):
                         raise Unknown('in-place update of %s through %s' % (x.id, ast.unparse(v.func)[:50]))
+            if (isinstance(v, ast.Call) and isinstance(v.func, ast.Attribute) and v.func.attr in MUTATING_METHODS and v.func.attr not in ('append', 'extend')
+                    and isinstance(v.func.value, ast.Subscript) and isinstance(v.func.value.value, ast.Name) and v.func.value.value.id in fr.env
+                    and fr.env[v.func.value.value.id][0] in ('list', 'dict', 'comp', 'cat', 'accum', 'upd', 'bin', 'call')):
+                # local[k].add(x) / .update(..) / .insert(..): a slot of a local table changed in a way the scatter algebra does not model
+                raise Unknown('in-place %s() on a slot of the local container %s' % (v.func.attr, v.func.value.value.id))
             if (isinstance(v, ast.Call) and isinstance(v.func, ast.Attribute) and v.func.attr in ('append', 'extend') and len(v.args) == 1
                     and isinstance(v.func.value, ast.Subscript) and isinstance(v.func.value.value, ast.Name) and v.func.value.value.id in fr.env
                     and fr.env[v.func.value.value.id][0] not in ('sym', 'attr', 'bvar', 'idx') and not isinstance(v.func.value.slice, ast.Slice)):
